@@ -234,7 +234,7 @@ func genFileHistory(r *rand.Rand, maxLen int) History {
 		case kind != "" || k < 8:
 			p, t, kd := w.bad(dir, kind)
 			kinds = append(kinds, kd)
-			if one(6) {
+			if one(6) || (one(3) && (strings.HasPrefix(kd, "truncated") || strings.HasPrefix(kd, "surplus"))) {
 				// the same text offered through Parse
 				h.Ops = append(h.Ops, Op{Op: "load", Name: p, Text: t})
 			} else {
@@ -279,6 +279,10 @@ func genFileHistory(r *rand.Rand, maxLen int) History {
 		rd(ms[r.Intn(len(ms))])
 	}
 	shape := ""
+	// lz becomes available in ONE way per history: its directory goes on the path, or the file appears
+	// in da (a file that appears must not hide one that an earlier run has read: the fresh set would
+	// rightly find another file)
+	lzByPut := one(4)
 	round := func() {
 		switch k := r.Intn(12); {
 		case k < 3:
@@ -366,9 +370,10 @@ func genFileHistory(r *rand.Rand, maxLen int) History {
 			// an import that cannot be found, a run, the search path grows (or the file appears), a run
 			shape += "+missing-import-then-path"
 			main, fix := "da/mz.yang", Op{Op: "addpath", Name: "dz"}
-			switch r.Intn(4) {
-			case 0:
+			if lzByPut {
 				fix = Op{Op: "putfile", Name: "da/lz@2021-01-01.yang", Text: w.lz}
+			}
+			switch r.Intn(4) {
 			case 1:
 				main, fix = "top/me.yang", Op{Op: "addpath", Name: "top/..."}
 			case 2:
@@ -402,7 +407,11 @@ func genFileHistory(r *rand.Rand, maxLen int) History {
 				case 2, 3:
 					goodIn([]string{"da", "db", "dc"}[r.Intn(3)])
 				case 4:
-					ap([]string{"da", "db", "dc", "dz", "de", "da:db", "top/...", "nosuchdir"}[r.Intn(8)])
+					d := []string{"da", "db", "dc", "dz", "de", "da:db", "top/...", "nosuchdir"}[r.Intn(8)]
+					if d == "dz" && lzByPut {
+						d = "de"
+					}
+					ap(d)
 				case 5:
 					proc()
 				case 6:
